@@ -27,7 +27,7 @@ while read sha checks; do
     if [ $rc -eq 1 ]; then fired="$fired $c($(grep -c '^VIOLATION' $W/out.$c):$(grep -m1 'kind=' $W/out.$c | sed 's/.*kind=\([^ ]*\).*/\1/'))"; elif [ $rc -ne 0 ]; then fired="$fired $c(rc=$rc)"; else silent="$silent $c"; fi
   done
   echo "$sha fired:[$fired ] silent:[$silent ] | $subj" >> $OUT
-done < /verif/tools/ablate_map.txt
+done < ${ABL_MAP:-/verif/tools/ablate_map.txt}
 git -C /repo worktree remove --force $W/repo
 rm -rf $W
 echo DONE >> $OUT
